@@ -466,7 +466,9 @@ def run_c16(ctx):
         if impl[:1] == ["other-error"] and mo[0] == "other-error":
             if impl[1] != mo[1]: ctx.disagree("validate", dict(case=ci), impl, mo)
             continue
-        if impl != mo: ctx.disagree("validate", dict(case=ci), impl, mo)
+        # the recorded finding 'list-with-undecodable-element' (a list holding None raises AttributeError while being written) is outside the validation model
+        undec = impl[:2] == ["other-error", "AttributeError"] and "xml_encode" in str(impl[2:])
+        if impl != mo: ctx.disagree("out-of-domain" if undec else "validate", dict(case=ci), impl, mo)
     pick = [i for i in range(len(reqs)) if len(vlib.to_sx(reqs[i])) < 5000][:10]
     ctx.crosscheck = vlib.coq_crosscheck([reqs[i] for i in pick], [ans[i] for i in pick], "c16")
 
